@@ -1,55 +1,85 @@
 #!/usr/bin/env python3
-"""Development helper: file a confirmed seeded change under /verif/seeded/<Cxx>-m<i>/.
-   tools/seeded_add.py <Cxx> <i> <mutdir> <conf-log> [--note "..."]
-Copies patch.diff, the demonstration (demo.rs, demo_output.txt, README.md) and writes meta.json from the
-section of the confirmation log that belongs to this change (suite result with the change applied, demo on
-the changed and on the clean tree, what each /verif check said when run against the changed tree)."""
+"""Development helper: file a confirmed seeded change under /verif/seeded/<Cxx>-<letter>/.
+   tools/seeded_add.py <Cxx>-<letter> <OUT-dir> <conf-log> [--note "..."]
+Copies patch.diff, the demonstration (demo.diff, demo_cmd.txt, demo_output.txt, README.md) and writes meta.json
+from the confirmation log written by tools/seeded_confirm.sh (suite result with the change applied, demonstration
+on the changed and on the clean tree, what each /verif check said when run against the changed tree; the replay
+files of the reported violations are copied next to it)."""
 import json, os, re, shutil, sys
 
-prop, idx, mutdir, conflog = sys.argv[1:5]      # idx: a, b, ... (one letter per independent sub-agent)
+sid, outdir, conflog = sys.argv[1:4]
+prop = sid.split("-")[0]
 note = sys.argv[sys.argv.index("--note") + 1] if "--note" in sys.argv else ""
 root = os.path.dirname(os.path.dirname(os.path.abspath(__file__)))
-dst = os.path.join(root, "seeded", f"{prop}-{idx}")
+dst = os.path.join(root, "seeded", sid)
 os.makedirs(dst, exist_ok=True)
-for f in ("patch.diff", "demo.diff", "demo_cmd.txt", "demo_output.txt", "README.md"):
-    p = os.path.join(mutdir, f)
+for f in ("patch.diff", "patch.orig.diff", "demo.diff", "demo_cmd.txt", "demo_output.txt", "README.md"):
+    p = os.path.join(outdir, f)
     if os.path.exists(p):
         shutil.copy(p, os.path.join(dst, f))
-text = open(conflog, errors="replace").read()
-m = re.search(r"#{8} %s-%s\n(.*?)(?=\n#{8} |\Z)" % (prop, idx), text, re.S)
-sec = m.group(1) if m else ""
-suite = re.search(r"== suite with mutation\n(test result: [^\n]*)", sec)
-demo_mut = re.search(r"== demo with mutation[^\n]*\n((?:test [^\n]*\n)+)", sec)
-demo_clean = re.search(r"== demo on clean tree[^\n]*\n((?:test [^\n]*\n)+)", sec)
+sec = open(conflog, errors="replace").read()
+
+
+def part(title):
+    m = re.search(r"== %s[^\n]*\n(.*?)(?=\n== |\Z)" % re.escape(title), sec, re.S)
+    return m.group(1) if m else ""
+
+
+suite = re.findall(r"test result: [^\n]*", part("suite with mutation"))
+demo_mut = [l for l in part("demo with mutation").splitlines() if l.startswith(("test ", "test result"))]
+demo_clean = [l for l in part("demo on clean tree").splitlines() if l.startswith(("test ", "test result"))]
+base = re.search(r"detached HEAD (\w+)", sec)
 checks = {}
-for line in sec.splitlines():
-    mm = re.search(r"(VIOLATION|OK) property=(C\d\d)(.*)", line)
+for line in part("checks against the changed tree").splitlines():
+    mm = re.match(r"(VIOLATION|OK) property=(C\d\d)(.*)", line)
     if not mm:
         continue
     kind, p, rest = mm.groups()
-    e = checks.setdefault(p, {"verdict": "OK", "with_failing_input": False, "by": []})
+    e = checks.setdefault(p, {"verdict": "OK", "with_failing_input": False, "by": [], "replays": []})
     if kind == "VIOLATION":
         e["verdict"] = "VIOLATION"
-        k = re.search(r"replays/C\d\d_([a-z]+)_", rest)
-        if k and k.group(1) not in e["by"]:
-            e["by"].append(k.group(1))
+        k = re.search(r"replay=(\S*/replays/(C\d\d_([a-z]+)_\w+\.json))", rest)
+        if k:
+            if k.group(3) not in e["by"]:
+                e["by"].append(k.group(3))
+            src = k.group(1)
+            if os.path.exists(src) and len(e["replays"]) < 2:
+                shutil.copy(src, os.path.join(dst, k.group(2)))
+                e["replays"].append(k.group(2))
         if "no-failing-input-found" not in rest:
             e["with_failing_input"] = True
-readme = open(os.path.join(mutdir, "README.md"), errors="replace").read() if os.path.exists(os.path.join(mutdir, "README.md")) else ""
-files = sorted(set(re.findall(r"^\+\+\+ b/(\S+)", open(os.path.join(mutdir, "patch.diff")).read(), re.M)))
+def needs(readme):
+    """the paragraph of the sub-agent's README that says what the change needs in order to manifest"""
+    lines = readme.splitlines()
+    for i, l in enumerate(lines):
+        if re.search(r"(?i)(trigger|manifest|what is needed|needed for|what it takes|circumstance)", l):
+            body = [x.strip() for x in lines[i:i + 14] if x.strip()]
+            txt = " ".join(body)
+            if len(txt) > 60:
+                return txt[:900]
+    return " ".join(x.strip() for x in lines[1:12] if x.strip())[:900]
+
+
+readme = open(os.path.join(outdir, "README.md"), errors="replace").read() if os.path.exists(os.path.join(outdir, "README.md")) else ""
+files = sorted(set(re.findall(r"^\+\+\+ b/(\S+)", open(os.path.join(outdir, "patch.diff")).read(), re.M)))
 meta = {
-    "id": f"{prop}-{idx}", "property": prop, "files": files,
-    "origin": "fresh sub-agent given only the property text and a scratch worktree of /repo",
-    "confirmed": {
-        "applies_and_compiles": bool(suite),
-        "suite_with_change": suite.group(1) if suite else None,
-        "hooks_on_cargo_check": "ok" if re.search(r"== check guard on\n[^=]*Finished", sec) else "see log",
-        "demo_with_change": demo_mut.group(1).strip().splitlines() if demo_mut else None,
-        "demo_on_clean_tree": demo_clean.group(1).strip().splitlines() if demo_clean else None,
+    "id": sid, "property": prop, "files": files,
+    "origin": "fresh sub-agent given only the property text and its own scratch worktree of /repo (nothing from /verif)",
+    "needs_to_manifest": needs(readme),
+    "summary": (readme.strip().splitlines() or [""])[0][:400],
+    "confirmed_in_scratch_worktree": {
+        "base_commit": base.group(1) if base else None,
+        "applies": "PATCH-DOES-NOT-APPLY" not in sec,
+        "builds_guard_off": bool(re.search(r"== build guard off\n[^=]*Finished", sec)),
+        "builds_guard_on": bool(re.search(r"== check guard on\n[^=]*Finished", sec)),
+        "suite_with_change": suite[:1],
+        "demo_with_change": demo_mut[-3:],
+        "demo_on_clean_tree": demo_clean[-3:],
     },
+    "ran": "tools/seeded_confirm.sh %s <OUT> %s  (scratch worktree of /repo HEAD + patch.diff; scratch copy of /verif with the harness "
+           "pointed at it; tools/check <Cxx> --tier quick)" % (sid, " ".join(sorted(checks))),
     "checks_against_changed_tree": checks,
-    "summary": (readme.strip().splitlines() or [""])[0][:300],
     "note": note,
 }
 json.dump(meta, open(os.path.join(dst, "meta.json"), "w"), indent=1)
-print(dst, json.dumps(checks))
+print(dst, json.dumps({k: (v["verdict"], v["with_failing_input"]) for k, v in checks.items()}))
